@@ -228,7 +228,8 @@ Theorem C05_obs_op_variants_domain : map obs_op_key obs_op_variants = op_rows.
 Proof. exact obs_op_variants_domain. Qed.
 
 (* ---- identifier arguments: every built-in with an ID-typed argument and the add statement x idarg_idents x 9 scopes,
-   strict (the simulator raises no error at all) *)
+   "interp" bit = the simulator raises no error attributable to the identifier (relative to the baseline cell with an
+   identifier of the correct kind; see lib/tables_util.py idarg_verdict) *)
 Theorem C05_obs_idargs_domain : map (fun r => match r with (fn, i, _, _) => (fn, i) end) obs_idargs = idarg_rows.
 Proof. exact obs_idargs_domain. Qed.
 Theorem C05_lint_sub_interp_idargs : forall fn i lint interp p ident s,
